@@ -205,6 +205,53 @@ fn order(m: &Model, ctx: &mut Ctx) {
     }
 }
 
+/// Detector/rewriter agreement over constraint kinds: `has_cross_reference` decides whether the linker visits a
+/// definition at all, `link_cross_reference` does the visiting. For every variant the rewriter descends into, the
+/// detector must be able to say yes — an arm that is the constant `false` hides every reference below that variant.
+pub fn constraint_pairs(m: &Model, ctx: &mut Ctx, rule: &str) {
+    let mut pairs = 0;
+    for ty in ["Constraint", "SubtypeElements", "ElementOrSetOperation"] {
+        let det = m.fns.iter().find(|f| f.name == "has_cross_reference" && f.self_ty.as_deref() == Some(ty));
+        let rew = m.fns.iter().find(|f| f.name == "link_cross_reference" && f.self_ty.as_deref() == Some(ty));
+        let (Some(det), Some(rew)) = (det, rew) else {
+            ctx.fail_closed(rule, &format!("anchor not found: {}::has_cross_reference / link_cross_reference", ty));
+            continue;
+        };
+        let Ok(en) = m.find_enum(ty) else {
+            ctx.fail_closed(rule, &format!("enum {} not found", ty));
+            continue;
+        };
+        ctx.func(&det.key);
+        ctx.func(&rew.key);
+        let arm_for = |f: &FnInfo, v: &str| -> Option<(String, usize)> {
+            let mt = model::matches_in(&f.block).into_iter().find(|mt| tok(&mt.expr) == "self")?;
+            let named = mt.arms.iter().find(|a| {
+                let p = tok(&a.pat);
+                p.split('|').any(|alt| {
+                    let alt = alt.trim();
+                    alt.ends_with(&format!("::{}", v)) || alt.contains(&format!("::{}(", v)) || alt.contains(&format!("::{}{{", v))
+                })
+            });
+            let arm = named.or_else(|| mt.arms.iter().find(|a| tok(&a.pat) == "_"))?;
+            Some((tok(&arm.body), model::line_of(syn::spanned::Spanned::span(arm))))
+        };
+        for v in &en.variants {
+            let (Some((db, dl)), Some((rb, _))) = (arm_for(det, v), arm_for(rew, v)) else {
+                ctx.fail_closed(rule, &format!("{}::{}: no arm found in has_cross_reference / link_cross_reference", ty, v));
+                continue;
+            };
+            pairs += 1;
+            let acts = !["()", "Ok(())", "{}", "{Ok(())}"].contains(&rb.as_str());
+            ctx.oblige(rule, &format!("{}::{}", ty, v), acts);
+            if acts && db == "false" {
+                ctx.violate(rule, &format!("detector-constant-false:{}::{}", ty, v), &det.file, dl,
+                    &format!("{}::has_cross_reference is the constant `false` for {}::{}, but link_cross_reference descends into it: a definition whose only reference sits below a {} constraint is never visited by the linker, and the reference stays unresolved", ty, ty, v, v));
+            }
+        }
+    }
+    ctx.floor(&format!("{}/constraint-kind-pairs", rule), pairs, 14);
+}
+
 pub fn run(m: &Model, ctx: &mut Ctx) {
     ctx.explanation = "C09.sym: each detector/rewriter pair of the linker (contains_components_of_notation / link_components_of_notation, has_choice_selection_type / link_choice_selection_type, \
 contains_constraint_reference / link_constraint_reference, references_class_by_name / resolve_class_reference) must traverse the same container variants of ASN1Type: a container the detector enters but the rewriter does not (or vice versa) leaves a notation unexpanded at that position. \
@@ -247,6 +294,7 @@ Not applicable: the equivalence sugared = expanded itself, independence from the
 
     scope(m, ctx);
     order(m, ctx);
+    constraint_pairs(m, ctx, "C09.sym");
 
     // ---------------- splice ----------------
     if let Some(f) = m.fns.iter().find(|f| f.name == "link_components_of_notation" && f.self_ty.as_deref() == Some("ASN1Type")) {
